@@ -229,7 +229,7 @@ PROPS = {
         "not_covered": ["honest accumulator values computed by the code", "widths 255/256 (documented as constraining nothing)"],
     },
     "C10": {
-        "v_units": ["logic.py"],
+        "v_units": ["logic.py", "logic_lemmas.py", "truncate_lemmas.py"],
         "r": [("widgets", lambda n: n.startswith("logic.")), ("composer_leaves", lambda n: "internal" in n),
               ("gadgets", lambda n: n.startswith("truncate."))],
         "claim": "(a) layout for EVERY pair count P <= 127 (loop invariant): append_logic_component::<P> emits P selected rows "
@@ -238,13 +238,17 @@ PROPS = {
                  "accumulator; append_logic_and/xor are the two instances; (b) logic widget: ProverKey::compute_quotient_i / "
                  "compute_linearization, VerifierKey::compute_linearization_commitment, delta and delta_xor_and equal the protocol's logic "
                  "identity for all inputs."
-                 "Second opinion by R: per-width instances of the truncation gadget that binds the logic accumulators.",
-        "technique": "contract-based deductive verification: ring/trace contract checker (exact polynomial normal form)",
-        "level_note": "NOT yet covered: honest accumulator values, the quad-semantics lemma, the uniqueness lemma. Assumed: the two "
+                 "Second opinion by R: per-width instances of the truncation gadget that binds the logic accumulators. "
+                 "(c) SEMANTIC LEMMAS (Verus, specs/verus/logic_lemmas.rs + truncate_lemmas.rs): quad semantics of the logic identity (128 cases; quad_op is the bitwise op on 2 bits, by bit_vector); "
+                 "by induction over the rows, for every P <= 127, satisfied rows force the accumulators to be exact base-4 numbers with d_P == quad-wise AND / XOR of a_P and b_P; with the canonical "
+                 "truncation of both inputs (C11 lemma: a_P == a mod 2^(2P)) the returned witness is the bitwise AND / XOR of the low 2P bits and no other value satisfies the rows.",
+        "technique": "contract-based deductive verification: Verus (layout for all pair counts, semantic lemmas) + ring/trace contract checker (widget identities, exact polynomial normal form)",
+        "level_note": "The lemmas read one selected row as the five separated terms of logic_id (range of the three quads, product wire, op identity): the separation by the challenge kappa is the "
+                      "protocol-level argument (assumed). Completeness (honest accumulator values satisfy the rows) is not a lemma. Assumed: the two "
                       "bit-extraction cuts (BitIterator8 ... skip ... collect) return 2P booleans.",
         "design_ref": "DESIGN.md §4 C10",
         "assumptions": A_RING + A_VERUS, "trusted": T_RING + T_VERUS,
-        "not_covered": ["returned witness == AND/XOR of truncated inputs (lemma)"],
+        "not_covered": ["completeness lemma (honest accumulators)", "separation of the five terms of the logic row identity by kappa (protocol argument)"],
     },
     "C11": {
         "v_units": ["truncate.py", "truncate_lemmas.py"],
